@@ -6,6 +6,7 @@ import (
 	"crypto/sha1"
 	"encoding/json"
 	"fmt"
+	"math"
 	"os"
 	"os/exec"
 	"path/filepath"
@@ -118,7 +119,20 @@ type ReplayFile struct {
 func inputsOf(vs []sym.InputVal) []ReplayInput {
 	out := make([]ReplayInput, len(vs))
 	for i, v := range vs {
-		out[i] = ReplayInput{Name: v.Name, Tag: v.Tag, Bits: fmt.Sprintf("%d", v.Val.Bits)}
+		bits := v.Val.Bits
+		if v.Val.Rat != nil {
+			// real-valued model of a float input: nearest float of the tagged width
+			f, _ := v.Val.Rat.Float64()
+			switch v.Tag {
+			case "f32":
+				bits = uint64(math.Float32bits(float32(f)))
+			case "f64":
+				bits = math.Float64bits(f)
+			default:
+				bits = uint64(int64(f))
+			}
+		}
+		out[i] = ReplayInput{Name: v.Name, Tag: v.Tag, Bits: fmt.Sprintf("%d", bits)}
 	}
 	return out
 }
